@@ -965,4 +965,34 @@ theorem killed_step {P : Params} {fixed : Bool} {s s' : Sys} {a : Act} (hk : s.k
     · cases h
     · cases h; exact ⟨hk, hc, rfl, by simp only; exact List.length_erase_le⟩
 
+/-! ## executable reachability with a checked GC hypothesis (for concrete examples) -/
+
+instance (fixed : Bool) (s : Sys) : Decidable (DoneReturned fixed s) := by
+  unfold DoneReturned; infer_instance
+
+/-- `run`, but a GC step is only taken when `Hb` holds of the state before it. -/
+def runH (P : Params) (fixed : Bool) (Hb : Sys → Bool) : Sys → List Act → Option Sys
+  | s, [] => some s
+  | s, a :: as =>
+    if a = .gc ∧ Hb s = false then none
+    else match step P fixed s a with
+      | some s' => runH P fixed Hb s' as
+      | none => none
+
+theorem Reach.of_runH {P : Params} {fixed : Bool} {H : Sys → Prop} {Hb : Sys → Bool} (hH : ∀ s, Hb s = true → H s) :
+    ∀ (acts : List Act) {s s' : Sys}, Reach P fixed H s → runH P fixed Hb s acts = some s' → Reach P fixed H s'
+  | [], s, s', hs, h => by simp only [runH, Option.some.injEq] at h; exact h ▸ hs
+  | a :: as, s, s', hs, h => by
+    simp only [runH] at h
+    split at h
+    · cases h
+    · rename_i hn
+      split at h
+      · rename_i s₁ hs₁
+        refine Reach.of_runH hH as (Reach.step hs (fun e => hH s ?_) hs₁) h
+        cases hb : Hb s with
+        | true => rfl
+        | false => exact absurd ⟨e, hb⟩ hn
+      · cases h
+
 end Whv.Sup
